@@ -144,6 +144,15 @@ def main(argv=None):
             for v in vs:
                 if known.match(v) is None:
                     regress.append((rp, v))
+        # cases on which an earlier version of the oracle raised a false alarm (DESIGN section 10): ordinary
+        # regression inputs, the property holds on them on the unchanged tree
+        import glob
+
+        for rp in sorted(glob.glob(os.path.join(REPLAY_DIR, "quiet", f"{prop}-*.json"))):
+            vs = run_replay_file(prop, rp)
+            for v in vs:
+                if known.match(v) is None:
+                    regress.append((rp, v))
     except BaseException as e:  # noqa: BLE001
         print(f"HARNESS-ERROR property={prop} known-findings replay: {core.fmt_exc(e)}")
         traceback.print_exc()
